@@ -306,3 +306,11 @@ def operator_table(ctx, fn, opsmod='tracklib.core.operators'):
     fn['Operator'] = ref
     fn['__globals__']['Operator'] = ref
     return ref
+
+
+def real_obs(ctx, fn, position, timestamp=None, **tags):
+    """an observation of the repository's own Obs class (constructed by its constructor, interpreted), with extra fields the rules use as tags"""
+    OB = classref(ctx, 'tracklib.core.obs.Obs', fn)
+    o = OB(position, timestamp) if timestamp is not None else OB(position)
+    o.fields.update(tags)
+    return o
